@@ -3,8 +3,11 @@ module dvharness
 go 1.21
 
 require (
+	github.com/pebbe/zmq4 v1.2.11
 	github.com/spf13/viper v1.18.2
 	github.com/usnistgov/dastard v0.0.0
+	gonum.org/v1/gonum v0.15.0
+	gopkg.in/yaml.v3 v3.0.1
 )
 
 require (
@@ -15,7 +18,6 @@ require (
 	github.com/magiconair/properties v1.8.7 // indirect
 	github.com/mitchellh/mapstructure v1.5.0 // indirect
 	github.com/nlpodyssey/gopickle v0.3.0 // indirect
-	github.com/pebbe/zmq4 v1.2.11 // indirect
 	github.com/pelletier/go-toml/v2 v2.2.2 // indirect
 	github.com/sagikazarmark/slog-shim v0.1.0 // indirect
 	github.com/sbinet/npyio v0.9.0 // indirect
@@ -25,9 +27,7 @@ require (
 	github.com/subosito/gotenv v1.6.0 // indirect
 	golang.org/x/sys v0.20.0 // indirect
 	golang.org/x/text v0.15.0 // indirect
-	gonum.org/v1/gonum v0.15.0 // indirect
 	gopkg.in/ini.v1 v1.67.0 // indirect
-	gopkg.in/yaml.v3 v3.0.1 // indirect
 )
 
 replace github.com/usnistgov/dastard => /repo
